@@ -96,6 +96,14 @@ theorem runC_only_celerror_current (body : M V)
 theorem parse_only_parseerror_current {T : Type} (lark : M T) (hl : ∀ c, lark = .error c → c ∈ larkRaised)
     (c : Cls) (h : parseM mro parseCaught lark = .error c) : c = celParse :=
   parse_only_parseerror mro parseCaught lark (fun c' hc' => parse_errors_wrapped c' (hl c' hc')) c h
+
+/-- **session_only_cel_errors** over the current source and the installed lark: in EVERY history of compile / evaluate
+    calls through one Environment only CELEvalError and CELParseError are raised -/
+theorem session_only_cel_errors_current {T : Type} (lark : T → M Expr) (hl : ∀ t c, lark t = .error c → c ∈ larkRaised)
+    (hp : PrimSpec raises key keyT P) (steps : List (Step T N)) (s : Session T) (c : Cls)
+    (h : Out.raised c ∈ runS (V := V) mro handlers P parseCaught lark s steps) : c = celEval ∨ c = celParse :=
+  session_only_cel_errors mro handlers P parseCaught lark (safe_of_spec_covered covered hp)
+    (fun t c' hc' => parse_errors_wrapped c' (hl t c' hc')) steps s c h
 end
 
 end Cel.Bridge.Total
